@@ -360,6 +360,7 @@ def run_adpcm(ctx):
     mods = [m for m in getattr(ctx, "lean_modules", ["SfProps.C20"]) if m != "SfProps.C20Adpcm"] + ["SfProps.C20Adpcm"]
     ctx.lean_modules = mods
     failed = ctx.lean_stage(mods)
+    failed = [f for f in failed if f not in getattr(ctx, "lean_failures_with_input", ())]   # vlib/codecs20.py found the failing input of these
 
     # ---- 2. the campaign: every geometry, one multi-block file each ------------------------------------------------
     geos = geometries(ctx)
